@@ -39,6 +39,7 @@ type Model struct {
 	Fired    map[string]int         // catch node -> number of times it released its tokens
 	Dropped  int                    // events that found no armed matching listener
 	boundaryFired map[string]int
+	Throws   map[string]int // throw events passed by a token
 	Reqs     map[string]int
 	Violations []string
 	// loopCount counts answers per counter variable (the driver mirrors this)
@@ -168,6 +169,10 @@ func (m *Model) arrive(f *Flow, a *activation) {
 			m.startAt(starts, na)
 		}
 	case "throw":
+		if m.Throws == nil {
+			m.Throws = map[string]int{}
+		}
+		m.Throws[n.ID]++
 		m.leaveAll(n, a)
 	case "evgw":
 		// the token waits at the gateway; its alternatives (the catch events behind it) are armed
